@@ -93,7 +93,7 @@ def codepoints(ctx):
     s |= set(range(0, 0x110000, 257))
     return sorted(s)
 
-def sweep(ctx):
+def sweep(ctx, wellformed_only=False):
     """every code point alone in text, attribute and CDATA position through the real printer and expat"""
     from odf.element import Element, Text, CDATASection
     cps = list(codepoints(ctx))
@@ -123,7 +123,23 @@ def sweep(ctx):
             got = (e[2][0][1], e[3][0][1] if e[3] else '', f[3][0][1] if f[3] else '')
             if got != (want, want, want):
                 cause = 'discouraged-codepoint' if discouraged_only(c, got) else 'other'
-                ctx.violation('roundtrip', {'codepoint': c, 'positions': ['attribute', 'text', 'cdata']}, [ord(x) for g in got for x in g], ord(want), {'cause': cause})
+                if not wellformed_only: ctx.violation('roundtrip', {'codepoint': c, 'positions': ['attribute', 'text', 'cdata']}, [ord(x) for g in got for x in g], ord(want), {'cause': cause})
+    # many characters that XML cannot carry in ONE string (every one of them has to be replaced, not the first few)
+    illegal = [c for c in list(range(1, 32)) + [0xFFFE, 0xFFFF] if not X.xml10_char(c)]
+    for n in (33, 64, 200, 1500):
+        s_ = ''.join(chr(illegal[k % len(illegal)]) + ('' if k % 3 else 'a') for k in range(n))
+        e = Element(qname=(X.FOREIGN[0], 'c'), check_grammar=False)
+        e.setAttrNS(X.FOREIGN[0], 'a', s_); e.appendChild(Text(s_))
+        f = Element(qname=(X.FOREIGN[0], 'd'), check_grammar=False); f.appendChild(CDATASection(s_)); e.appendChild(f)
+        ex = X.expat_parse(X.real_toXml(e)); ctx.oracle_cases += 3
+        want = ''.join(ch if X.xml10_char(ord(ch)) else '\ufffd' for ch in s_)
+        if ex[0] != 'ok':
+            ctx.violation('not-well-formed', {'string_of_illegal_characters': n, 'codepoints': [ord(ch) for ch in s_[:40]]}, ex[1], 'accepted by expat', {'cause': 'illformed', 'rendering': 'Element.toXml'})
+        else:
+            got = (ex[1][2][0][1], ex[1][3][0][1], ex[1][3][1][3][0][1])
+            if got != (want, want, want) and not wellformed_only:
+                k = next(i for i in range(len(want)) if any(len(g) <= i or g[i] != want[i] for g in got))
+                ctx.violation('roundtrip', {'string_of_illegal_characters': n, 'first_difference_at': k, 'positions': ['attribute', 'text', 'cdata']}, [ord(g[k]) if len(g) > k else None for g in got], ord(want[k]), {'cause': 'other'})
     ctx.exhaustive.append('%d code points x {text, attribute, CDATA}%s' % (len(cps), '' if ctx.quick else ' (all of 0..0x10FFFF)'))
     ctx.bump('sweep-codepoints', len(cps))
 
